@@ -246,3 +246,6 @@ def replay(ctx, payload):
     if "asm" in inp:
         check_roundtrip(ctx, "replay", [inp["asm"]], "both")
     return {"fails": bool(ctx.out.oracle_failures or ctx.out.disagreements), "oracle": ctx.out.oracle_failures, "disagreements": ctx.out.disagreements[:3]}
+
+LEVEL_NOTE = "; ".join(TRUSTED)
+LEVEL_NOTE = LEVEL_NOTE + ' NEW: the asm-format CLI is in the model (Model/AsmFormat.lean: format selection, universal newlines, several input files into one output, error timing); `asm_format_agp_identity`, `asm_format_agp_tpf_agp(_text)`, `asm_format_line_or_error(_files)`, `in_place_run_loses_everything` (Properties/C05Cli.lean); tie: `cli-files:model` stream (output text + exception class)'
